@@ -32,6 +32,7 @@
 #include "Matrix/Table.hpp"
 #include "Matrix/MatrixRectangular.hpp"
 #include "Matrix/MatrixSquareSymmetric.hpp"
+#include "Matrix/MatrixSparse.hpp"
 #include "Space/ASpaceObject.hpp"
 #include "Enum/ELoc.hpp"
 #include "Enum/ECalcMember.hpp"
@@ -50,7 +51,7 @@ using vj::Value;
 
 // ----------------------------------------------------------------------------- fixed content
 static std::vector<double> SX, SY, TX, TY;     // geometry, from the spec
-static int NMAXI = 2, NLAG = 4, GNX = 3;
+static int NMAXI = 2, NLAG = 4, GNX = 3, CGNX = 8, CGNY = 7;
 static double GDX = 3.5, GDY = 3.;
 static double LAGW = 2.;
 static int SEED = 1;
@@ -70,6 +71,7 @@ struct Case
   std::vector<int> c, f, v;
   std::vector<std::vector<int>> z;
   std::map<std::string, std::vector<int>> keep;   // needs key -> positions (1-based)
+  std::map<std::string, std::vector<std::vector<int>>> keepv;   // needs key -> per variable, positions where that datum is usable
   std::vector<std::pair<std::string, std::string>> run;   // (operation, needs key)
   // target cases
   bool tcase = false;
@@ -97,6 +99,9 @@ static Case parseCase(const Value& j)
     c.z.push_back(zz);
   }
   for (auto& kv : j.at("keep").obj) c.keep[kv.first] = kv.second.ints();
+  if (j.has("keepv"))
+    for (auto& kv : j.at("keepv").obj)
+      for (auto& e : kv.second.arr) c.keepv[kv.first].push_back(e.ints());
   for (auto& e : j.at("run").arr) c.run.push_back({e.arr[0].s(), e.arr[1].s()});
   if (j.has("tsel")) c.tsel = j.at("tsel").strings();
   return c;
@@ -113,9 +118,11 @@ static double selValue(const std::string& s)
 
 // variant: 'M' masked, 'P' perturbed (content of the samples outside keep[nk] changed), 'R' reduced to keep[nk],
 // '0' = reduced to keep[nk] with an undefined measurement error replaced by 0 (alternative reading, V layout)
-static Db* buildDb(const Case& cs, char variant, const std::string& nk)
+// onlyVar >= 0 (with variant 'R'): physical removal for ONE requested variable: the rows where that datum is usable,
+// the other variable being filled (it is irrelevant to a request for variable onlyVar)
+static Db* buildDb(const Case& cs, char variant, const std::string& nk, int onlyVar = -1)
 {
-  const std::vector<int>& keep = cs.keep.at(nk);
+  const std::vector<int>& keep = (onlyVar >= 0) ? cs.keepv.at(nk)[onlyVar] : cs.keep.at(nk);
   std::set<int> kept(keep.begin(), keep.end());
   std::vector<int> rows;
   if (variant == 'R' || variant == '0')
@@ -137,8 +144,8 @@ static Db* buildDb(const Case& cs, char variant, const std::string& nk)
     bool yna = !cdef && (i == 2 || i == 3);
     x[k] = xna ? TEST : SX[a] + dx;
     y[k] = yna ? TEST : SY[a] + dy;
-    z1[k] = cs.z[a][0] ? (pert ? 3. * Z1[a] + 1. : Z1[a]) : TEST;
-    if (cs.nvar > 1) z2[k] = cs.z[a][1] ? (pert ? 3. * Z2[a] + 1. : Z2[a]) : TEST;
+    z1[k] = (cs.z[a][0] || onlyVar == 1) ? (pert ? 3. * Z1[a] + 1. : Z1[a]) : TEST;
+    if (cs.nvar > 1) z2[k] = (cs.z[a][1] || onlyVar == 0) ? (pert ? 3. * Z2[a] + 1. : Z2[a]) : TEST;
     f[k] = cs.f[a] ? (pert ? FX[a] + 2.25 : FX[a]) : TEST;
     v[k] = cs.v[a] ? (pert ? 4. * VE[a] : VE[a]) : (variant == '0' ? 0. : TEST);
     sel[k] = selValue(cs.sel[a]);
@@ -203,6 +210,20 @@ static DbGrid* buildGrid(const Case* cs)
   }
   return g;
 }
+
+// targets lying exactly on the data: the 4 sample places then the 4 corners of the field; or a grid of mesh 1
+static Db* buildOnTargets()
+{
+  VectorDouble x, y;
+  for (int a = 0; a < (int)SX.size(); a++) { x.push_back(SX[a]); y.push_back(SY[a]); }
+  double cx[4] = {0., (double)(CGNX - 1), (double)(CGNX - 1), 0.}, cy[4] = {0., 0., (double)(CGNY - 1), (double)(CGNY - 1)};
+  for (int k = 0; k < 4; k++) { x.push_back(cx[k]); y.push_back(cy[k]); }
+  Db* db = Db::create();
+  db->addColumns(x, "x", ELoc::X, 0);
+  db->addColumns(y, "y", ELoc::X, 1);
+  return db;
+}
+static DbGrid* buildOnGrid() { return DbGrid::create({CGNX, CGNY}, {1., 1.}, {0., 0.}); }
 
 // a fresh model for every call (no state shared between calls)
 static Model* makeModel(const Case& cs, int irf, bool expo = false)
@@ -282,9 +303,84 @@ static VectorString zNames(const Case& cs)
 }
 
 // ----------------------------------------------------------------------------- operations on the data Db
-static Res runOp(const Case& cs, const std::string& op, Db* db)
+static bool isReqOp(const std::string& op)
+{
+  return op == "cov_req" || op == "cov_sym_req" || op == "drift_req" || op == "ranks_req";
+}
+
+// matrices / readers asked for some variables only.  For a single requested variable the reduced Db is the physical
+// removal FOR THAT VARIABLE (buildDb(..., onlyVar))
+static Res runReqOp(const Case& cs, const std::string& op, Db* db, char variant, const std::string& nk)
 {
   Res r;
+  std::vector<VectorInt> reqs;
+  for (int w = 0; w < cs.nvar; w++) reqs.push_back({w});
+  if (op == "ranks_req" && cs.nvar > 1) reqs.push_back({1, 0});
+  for (auto& rq : reqs)
+  {
+    bool single = rq.size() == 1;
+    Db* own = (variant == 'R' && single) ? buildDb(cs, 'R', nk, rq[0]) : nullptr;
+    Db* d = (variant == 'R' && single) ? own : db;
+    if (d == nullptr)
+    {
+      // no row at all for this request: no Db can be built; marked, the masked run must then return nothing
+      if (op == "ranks_req") { r.i.push_back(-3); r.i.push_back(-2); }
+      else { r.i.push_back(-1); r.i.push_back(-1); }
+      continue;
+    }
+    int w = rq[0];
+    if (op == "cov_req")
+    {
+      Db* tg = buildTargets(nullptr, false);
+      { Model* m = makeModel(cs, 0); MatrixRectangular a = m->evalCovMatrix(d, nullptr, w, w); pushMatrix(r, a); delete m; }
+      { Model* m = makeModel(cs, 0); MatrixRectangular a = m->evalCovMatrix(d, tg, w, w); pushMatrix(r, a); delete m; }
+      { Model* m = makeModel(cs, 0); MatrixRectangular a = m->evalCovMatrixOptim(d, nullptr, w, w); pushMatrix(r, a); delete m; }
+      { Model* m = makeModel(cs, 0); MatrixRectangular a = m->evalCovMatrixOptim(d, tg, w, w); pushMatrix(r, a); delete m; }
+      {
+        Model* m = makeModel(cs, 0);
+        MatrixSparse* a = m->evalCovMatrixSparse(d, nullptr, w, w);
+        if (a != nullptr) { pushMatrix(r, *a); delete a; }
+        else { r.i.push_back(0); r.i.push_back(0); }
+        delete m;
+      }
+      delete tg;
+    }
+    else if (op == "cov_sym_req")
+    {
+      { Model* m = makeModel(cs, 0); MatrixSquareSymmetric a = m->evalCovMatrixSymmetric(d, w); pushMatrix(r, a); delete m; }
+      { Model* m = makeModel(cs, 0); MatrixSquareSymmetric a = m->evalCovMatrixSymmetricOptim(d, w); pushMatrix(r, a); delete m; }
+    }
+    else if (op == "drift_req")
+    {
+      Model* m = makeModel(cs, 1);
+      MatrixRectangular a = m->evalDriftMatrix(d, w, VectorInt(), ECalcMember::LHS);
+      pushMatrix(r, a);
+      delete m;
+    }
+    else   // ranks_req: Db::getMultipleRanksActive / getMultipleValuesActive with the list of variables
+    {
+      VectorVectorInt idx = d->getMultipleRanksActive(rq);
+      int ntot = 0;
+      for (auto& l : idx)
+      {
+        for (int q : l) r.i.push_back((int)d->getValue("id", q));
+        r.i.push_back(-1);
+        ntot += (int)l.size();
+      }
+      r.i.push_back(-2);
+      VectorDouble vals = d->getMultipleValuesActive(rq);
+      r.v.push_back((double)vals.size());
+      pushVec(r, vals);
+    }
+    delete own;
+  }
+  return r;
+}
+
+static Res runOp(const Case& cs, const std::string& op, Db* db, char variant, const std::string& nk)
+{
+  Res r;
+  if (isReqOp(op)) return runReqOp(cs, op, db, variant, nk);
   if (db == nullptr) { r.st = "empty"; return r; }
   if (op == "krig_u" || op == "krig_m" || op == "krig_mb")
   {
@@ -438,6 +534,32 @@ static Res runOp(const Case& cs, const std::string& op, Db* db)
     pushNewColumns(r, tg, nc0);
     delete tg;
   }
+  else if (op == "krig_on")
+  {
+    // kriging at targets lying on the data (points, then the nodes of a grid): exactness is for usable data only
+    for (int pass = 0; pass < 2; pass++)
+    {
+      Db* tg = pass == 0 ? buildOnTargets() : (Db*)buildOnGrid();
+      Model* m = makeModel(cs, 0);
+      ANeigh* ng = makeNeigh("u");
+      int nc0 = tg->getColumnNumber();
+      int err = kriging(db, tg, m, ng, EKrigOpt::POINT, true, true, false);
+      if (err) r.st = "err";
+      pushNewColumns(r, tg, nc0);
+      delete ng; delete m; delete tg;
+    }
+  }
+  else if (op == "simtub_on" || op == "simtub_on_grid")
+  {
+    Db* tg = (op == "simtub_on") ? buildOnTargets() : (Db*)buildOnGrid();
+    Model* m = makeModel(cs, 0);
+    ANeigh* ng = makeNeigh("u");
+    int nc0 = tg->getColumnNumber();
+    int err = simtub(db, tg, m, ng, 2, 52931 + SEED, 8);
+    if (err) r.st = "err";
+    pushNewColumns(r, tg, nc0);
+    delete ng; delete m; delete tg;
+  }
   else if (op == "reduce")
   {
     Db* red = Db::createReduce(db);
@@ -570,7 +692,7 @@ static void runTask(const std::vector<Case>& cases, const Task& t)
       std::string key = nk;
       if (var == '0') key = cs.hasF ? "cf" : "c";
       Db* db = buildDb(cs, var, key);
-      r = runOp(cs, op, db);
+      r = runOp(cs, op, db, var, key);
       delete db;
     }
     rec[std::string(1, var)] = r.json();
@@ -645,6 +767,7 @@ int main(int argc, char** argv)
   SX = cfg.at("sx").doubles(); SY = cfg.at("sy").doubles();
   TX = cfg.at("tx").doubles(); TY = cfg.at("ty").doubles();
   NMAXI = cfg.at("nmaxi").i(); NLAG = cfg.at("nlag").i(); LAGW = cfg.at("lagw").d();
+  CGNX = cfg.geti("cgnx", 8); CGNY = cfg.geti("cgny", 7);
   GNX = cfg.at("gnx").i(); GDX = cfg.at("gdx2").d() / 2.; GDY = cfg.at("gdy2").d() / 2.;
   SEED = cfg.geti("seed", 1);
   std::vector<Case> cases;
